@@ -4,6 +4,7 @@ import (
 	"context"
 	"fmt"
 	"net/url"
+	"sort"
 	"strings"
 
 	"github.com/aperturerobotics/bifrost/crypto"
@@ -78,6 +79,17 @@ func u64Params(vals ...uint64) []param {
 }
 
 func (e *engine) runC37() {
+	prevRule := e.rep.Rule
+	defer func() {
+		if e.onlyKinds != nil {
+			names := make([]string, 0, len(e.onlyKinds))
+			for n := range e.onlyKinds {
+				names = append(names, n)
+			}
+			sort.Strings(names)
+			e.rep.Rule = prevRule + "request de-duplication this property relies on (directive types " + strings.Join(names, ", ") + " only): " + e.rep.Rule
+		}
+	}()
 	e.rep.Rule = "for each of the 14 directive types (every IsEquivalent implementation of the repository): all ordered pairs over the product of a 2–5-value universe per constructor parameter (peer IDs: none/P1/P2; strings: empty/x/y + case variant X + xy (x as proper prefix); protocol IDs p/a, p/b, P/A, p/a/x; methods GET/POST/get; transport IDs 0/1/2 + 2^32, 2^32+1 (equal to 0 / 1 below bit 32); DialerOpts: nil / empty / address x / address x with backoff / address y; URLs: eight parsed URLs differing in path, query, host, escaping, case of path / host) ; sessions: nil / s1 / s2 / s3 = another object with the peers of s1; private keys: nil / k1 / k2 / k3 = another object with the bytes of k1) against the real IsEquivalent; the URL's String() is computed with net/url directly; plus the cross-type sweep: three instances of every type against three of every OTHER type (all ordered pairs of different types), which must never be equivalent; distinct = distinct op line"
 	p1, p2 := mkPeer(1), mkPeer(101)
 	peers := strParams("", p1.id, p2.id)
@@ -182,7 +194,12 @@ func (e *engine) runC37() {
 		d    directive.Directive
 	}
 	var reps []inst
+	included := 0
 	for _, k := range kinds {
+		if e.onlyKinds != nil && !e.onlyKinds[k.name] {
+			continue
+		}
+		included++
 		if k.neverMerge {
 			e.rep.Require(k.name + ".ne")
 		} else {
@@ -264,7 +281,9 @@ func (e *engine) runC37() {
 		}
 	}
 	// ---- cross-type sweep: directives of different types are never the same request ----
-	e.rep.Require("cross.ne")
+	if included > 1 {
+		e.rep.Require("cross.ne")
+	}
 	for _, x := range reps {
 		for _, y := range reps {
 			if x.kind == y.kind {
